@@ -21,7 +21,7 @@ func init() {
 		ID: "C05",
 		Rule: "per case a value document (string-values incl. 1, ' 2 ', 10, 9, abc, '', NaN, -0, 1e3, equal pairs, split across nested markup) and operand pools of the four types (node-set variables of 0-4 nodes in document or reverse order, boundary/random doubles, numeric-lexical strings, both booleans); every ordered pair x 6 operators as '$l op $r', a sample also spelled with path operands; oracle = reference §3.4 cascade; 16 comparisons per case placed inside a predicate over the value elements, with operands that mix absolute paths / literals with context-dependent parts (., position(), siblings, arithmetic, unions, filters, nested comparisons) against the model; " +
 			"library-only relations: L<R == R>L, L<=R == R>=L, = and != symmetric, singleton numeric trichotomy unless NaN, empty node-set vs non-boolean always false. distinct_nontrivial = distinct (left type, right type, operator, expected result, operand value classes)",
-		NCases: func(tier string) int { return map[string]int{"quick": 600, "thorough": 12000}[tier] },
+		NCases: func(tier string) int { return map[string]int{"quick": 600, "thorough": 8000}[tier] },
 		Case:   c05Case,
 	})
 }
